@@ -54,6 +54,7 @@ def eval_program(arg) -> dict:
                 prog.enc['provides'] = {'sts': 'NONE', 'mts': 'ALL'}
             out['counts']['programs_with_a_port_named_like_a_shell_part'] = 1
     case['cfg'] = prog.enc
+    prog.release = stream % 4 < 2      # both origins in both build configurations
     flavor = 'asan'
     if not progrun.build_or_report(prog, case, out, [flavor]):
         return progrun.finish_program(prog, out, case)
@@ -89,7 +90,8 @@ def main(tier: str) -> int:
     run = common.Run(PROP, tier)
     n = 6 if tier == 'quick' else 150
     run.require('constructions', 'constructed', 'refused', 'identity_comparisons', 'origin_create',
-                'origin_import', 'posts_seen', 'programs_with_a_port_named_like_a_shell_part')
+                'origin_import', 'posts_seen', 'programs_built_as_release',
+                'programs_built_as_development', 'programs_with_a_port_named_like_a_shell_part')
     scratch = run.scratch()
     progrun.drive(run, eval_program, [(run.seed, i, scratch, tier) for i in range(n)])
     return run.finish(
